@@ -1361,6 +1361,9 @@ func (t *translator) ret(s *ast.ReturnStmt, fc *fctx, out *[]stmt) {
 		if tgt != "" {
 			v, from := t.valOf(e, fc, tgt)
 			*out = append(*out, sAssign{tgt, v, from})
+		} else if len(t.stack) == 1 && !isNil(e) {
+			// what the entry point hands back to its caller
+			t.emitAct(".answer ("+t.provOf(e, fc)+")", out)
 		} else {
 			t.requirePureOrFollowed(e, fc)
 		}
